@@ -35,6 +35,22 @@ var knownFuncs = func() map[string]bool {
 	return m
 }()
 
+//go:embed known_params.txt
+var knownParamsTxt string
+
+// knownParams: function name -> parameter names (receiver first) on the pinned tree.
+var knownParams = func() map[string][]string {
+	m := map[string][]string{}
+	for _, l := range strings.Split(knownParamsTxt, "\n") {
+		f := strings.Split(strings.TrimSpace(l), "\t")
+		if len(f) < 1 || f[0] == "" {
+			continue
+		}
+		m[f[0]] = f[1:]
+	}
+	return m
+}()
+
 // activeProg is the program the rules are currently evaluated on (rules run sequentially).
 var activeProg *Program
 
